@@ -145,8 +145,11 @@ def negative_queries(ctx, out):
         if len(tempo) > 5:
             # a long map that has already answered lookups deep into it (and at its end) is as strict about what precedes it
             for tk in (tempo[-1][0] + 7, tempo[len(tempo) // 2][0], tempo[-1][0]):
-                be.timestamp_at_tick(tk)
-                be.timestamp_at_tick_no_optimize_return(tk)
+                try:
+                    be.timestamp_at_tick(tk)
+                    be.timestamp_at_tick_no_optimize_return(tk)
+                except Exception:  # noqa: BLE001  these only give the map a past; what is judged are the negative ticks below
+                    break
         for tick in (-1, -rng.randint(2, 10**6), -rng.choice(gen.LADDER[8:])):
             for name in ("timestamp_at_tick", "timestamp_at_tick_no_optimize_return"):
                 rp = {"op": "negq", "res": res, "tempo": tempo, "tick": tick, "api": name}
@@ -192,7 +195,7 @@ def queries(ctx, out):
             for tick in (lo, lo + 1, lo + 1000):
                 twin.timestamp_at_tick(tick)
                 twin.timestamp_at_tick_no_optimize_return(tick)
-        except (ValueError, OverflowError):
+        except Exception:  # noqa: BLE001  the twin only prepares a past; what the queries themselves answer is judged below
             pass
         for tick in (lo, lo + 1, lo + 1000, -1, -5):
             rp = {"op": "query", "res": res, "tempo": zt, "tick": tick}
